@@ -435,6 +435,7 @@ func init() {
 			fixedCases(c, wideCases(), oracleC02)
 			fixedCases(c, lazyCases(), oracleC02)
 			fixedCases(c, wideThunkCases(), oracleC02)
+			fixedCases(c, fullStackCallCases(), oracleC02)
 		},
 		Level: "exploration",
 		Rule: "type-directed programs with deliberate partial-operation failures and boundary operands (negative, fractional, huge, NaN, ±Inf indices; missing keys; zero / fractional / out-of-int64 moduli; invalid patterns; empty containers) in every operand position, " +
